@@ -104,3 +104,18 @@ Print Assumptions C05_text_roundtrip.
 Check simplify_unsound_star_negation.
 Check simplify_unsound_tilde_equality.
 Check simplify_unsound_in_equality.
+
+(** ** the crate renders and computes the DNF by walking [kind()] on ids, never on an unfolded diagram
+    ([Interner/KindWalk.v]): rebuilding the diagram from the views of a valid id gives exactly the diagram the id
+    denotes, so every observation that is a function of what such a walk sees - [to_dnf], Display - is that function
+    of the diagram, to which the theorems above apply. *)
+From PV Require Import Interner.Store Interner.StoreProofs Interner.Intern Interner.EvalModel Interner.KindWalk.
+Theorem C05_walk_is_the_diagram : forall (a : marena) (x : nid), Inv a -> valid (List.length a) x ->
+  forall (A : Type) (f : mdd -> A), option_map f (m_expand_i a x) = Some (f (unfold a x)).
+Proof. exact m_walk_observation. Qed.
+
+Theorem C05_to_dnf_on_ids : forall (a : marena) (x : nid), Inv a -> valid (List.length a) x ->
+  option_map DnfModel.to_dnf (m_expand_i a x) = Some (DnfModel.to_dnf (unfold a x)).
+Proof. exact to_dnf_i_unfold. Qed.
+Print Assumptions C05_walk_is_the_diagram.
+Print Assumptions C05_to_dnf_on_ids.
